@@ -523,6 +523,41 @@ fn corner_cases() -> Vec<Case> {
     v
 }
 
+/// 8-bit colour whose 0-100 levels are exactly `l`
+fn from_levels(l: [u32; 3]) -> [u8; 4] {
+    [((l[0] * 255 + 50) / 100) as u8, ((l[1] * 255 + 50) / 100) as u8, ((l[2] * 255 + 50) / 100) as u8, 255]
+}
+
+/// A picture for the palette extraction's sampling rule: a few common colours in runs and `singles`
+/// colours that occur exactly once each (all distinct at 0-100 resolution, at most 246 colours in all), the
+/// single ones at random places of the rows that are kept.  If the extraction skips pixels, some single
+/// colour gets no register and the picture cannot decode exactly.
+fn sampling_case(rng: &mut Rng, w: usize, h: usize, singles: usize, tag: &str) -> Case {
+    let commons: Vec<[u8; 4]> = (0..1 + rng.below(5) as u32).map(|k| from_levels([k * 20, 100 - k * 20, 0])).collect();
+    let mut px = vec![[0u8; 4]; w * h];
+    for y in 0..h {
+        let mut x = 0;
+        while x < w {
+            let run = 1 + rng.below(40) as usize;
+            let c = *rng.pick(&commons);
+            for k in x..(x + run).min(w) {
+                px[y * w + k] = c;
+            }
+            x += run;
+        }
+    }
+    let kept = w * (h / 6 * 6);
+    let mut used = BTreeSet::new();
+    for i in 0..singles.min(240) as u32 {
+        let mut pos = rng.below(kept as u64) as usize;
+        while !used.insert(pos) {
+            pos = rng.below(kept as u64) as usize;
+        }
+        px[pos] = from_levels([i % 101, (i * 37) % 101, 30 + i / 101]);
+    }
+    Case { w, h, px, bg: None, crop: None, tag: tag.to_string() }
+}
+
 fn random_case(rng: &mut Rng, thorough: bool) -> Case {
     let kind = rng.below(100);
     let (w, h) = if kind < 80 {
@@ -768,6 +803,15 @@ fn run_case(out: &mut Out, shared: &mut Shared, case: &Case, full_lines: bool) {
         out.hist(&format!("palette:{}", match pal.len() { 1 => "1", 2..=4 => "2-4", 5..=32 => "5-32", 33..=255 => "33-255", _ => "256" }));
     } else {
         out.fail("quantize gives nothing for a non-empty image", input.clone(), json!("Some"), json!("None"));
+    }
+    if case.tag.starts_with("sampling") {
+        // did every colour of the picture get a register?  (200 and more single-use colours: if pixels
+        // are skipped some of them are missed, except with negligible probability)
+        let have: BTreeSet<[u8; 3]> = d.registers.values().copied().collect();
+        let all = distinct.iter().all(|c| have.contains(c));
+        out.corr(&format!("c12 subsampled {vw} {vh}"), if all { "no" } else { "yes" });
+        out.hist(if all { "sampling:all-pixels" } else { "sampling:subsampled" });
+        out.hist(if vw * th <= 25600 { "sampling:<=25600" } else if vw * th < 51200 { "sampling:25601..51199" } else { "sampling:>=51200" });
     }
     let multi = d.toks.iter().any(|l| matches!(l.tok, Tok::Data { count, .. } if count > 3));
     let key = format!("{}|{:?}|{:?}", hex(&vis.iter().flatten().copied().collect::<Vec<u8>>()), (vw, vh), case.bg);
@@ -1121,6 +1165,40 @@ fn main() {
     }
     for case in corners {
         run_case(&mut out, &mut shared, &case, true);
+    }
+    // the sampling rule of the palette extraction (256 registers: below 51 200 kept pixels every pixel
+    // is walked): pictures just below / above 25 600 and 51 200 pixels and in between, with 230 colours
+    // used once; exactness is demanded below 51 200, and the `subsampled` lines tie the model's threshold
+    for (w, h) in [(106usize, 240usize), (107, 240), (160, 203), (160, 240), (213, 240), (214, 240), (230, 245)] {
+        let mut r = rng.fork();
+        let case = sampling_case(&mut r, w, h, 230, "sampling-threshold");
+        run_case(&mut out, &mut shared, &case, (w, h) == (107, 240));
+    }
+    for i in 0..if cfg.thorough { 150 } else { 3 } {
+        let mut r = rng.fork();
+        // 25 601 ..= 51 199 kept pixels
+        let (w, h) = loop {
+            let w = 100 + r.below(160) as usize;
+            let h = 100 + r.below(220) as usize;
+            let kept = w * (h / 6 * 6);
+            if (25_601..51_200).contains(&kept) {
+                break (w, h);
+            }
+        };
+        let singles = 1 + r.below(240) as usize;
+        let mut case = sampling_case(&mut r, w, h, singles, if singles >= 200 { "sampling-mid" } else { "mid" });
+        if i % 4 == 3 {
+            // as a cropped view of a larger backing image: same pixels, other strides
+            let (bw, bh) = (w + 3, h + 2);
+            let mut big = vec![[7u8, 7, 7, 255]; bw * bh];
+            for y in 0..h {
+                for x in 0..w {
+                    big[(y + 1) * bw + x + 2] = case.px[y * w + x];
+                }
+            }
+            case = Case { w: bw, h: bh, px: big, bg: None, crop: Some((1, 1 + h, 2, 2 + w)), tag: case.tag.clone() };
+        }
+        run_case(&mut out, &mut shared, &case, false);
     }
     // one image large enough to be subsampled by the palette extraction (structure only)
     {
